@@ -306,10 +306,26 @@ def access_features(acc, pc: int, ln: int) -> Dict[str, int]:
     that is not two BCD digits was read or written; n = number of data accesses."""
     ar = arw = ov = nbcd = n = 0
     lo, hi = pc, pc + max(ln, 1) + 8
+    rmin = rmax = wmin = wmax = None
+    last = {0: None, 1: None}
+    dirn = {0: 0, 1: 0}
+    wrap = 0
     for a, v, w in acc or ():
         if not w and lo <= a < hi:
             continue
         n += 1
+        if not (0x1000EC <= a <= 0x1000EE):
+            k = 1 if w else 0
+            if last[k] is not None and a != last[k]:
+                d = 1 if a > last[k] else -1
+                if abs(a - last[k]) > 1 or (dirn[k] and d != dirn[k]):
+                    wrap = 1            # a pointer jumped: it wrapped inside the 256-byte page (or the space)
+                dirn[k] = d
+            last[k] = a
+            if w:
+                wmin, wmax = (a if wmin is None else min(wmin, a)), (a if wmax is None else max(wmax, a))
+            else:
+                rmin, rmax = (a if rmin is None else min(rmin, a)), (a if rmax is None else max(rmax, a))
         if 0x1000EC <= a <= 0x1000EE:
             ar = 1
             if w:
@@ -318,7 +334,18 @@ def access_features(acc, pc: int, ln: int) -> Dict[str, int]:
             ov = 1
         if (v & 0x0F) > 9 or (v >> 4) > 9:
             nbcd = 1
-    return {"ar": ar, "arw": arw, "ov": ov, "nbcd": nbcd, "n": n}
+    # how the bytes read and the bytes written by a block move lie to each other
+    if rmin is None or wmin is None or wmax < rmin or rmax < wmin:
+        move = "disjoint"
+    elif wmin < rmin:
+        move = "dst_below_src"
+    elif wmin > rmin:
+        move = "dst_above_src"
+    else:
+        move = "same"
+    if wrap:
+        move = "wrapped"
+    return {"ar": ar, "arw": arw, "ov": ov, "nbcd": nbcd, "n": n, "move": move}
 
 
 def py_run(emu, bus, n: int, lo: int = CODE_LO, hi: int = CODE_HI, stop_at=None, block_limit=None,
